@@ -421,9 +421,14 @@ class C08(Check):
         def count(l):
             self.branch_counts[l] = self.branch_counts.get(l, 0) + 1
         mc = 8 if th else 5
-        out.append(Stream('branches', branch_scope_cases(mc, count), exhaustive=True,
-                          note='every owning state with capacity <= %d (size, head-room) and every attached state of length <= 4 '
-                               '(front offset) x every operation with arguments on and one past each branch condition' % mc))
+        bcases = branch_scope_cases(mc, count)
+        nb = (len(bcases) + 299) // 300
+        # chunks of <= 300 cases: lib/vf.py gives up on a stream with more than 400 crashing cases, and a broken
+        # prepend/append crashes most cases of this stream (each ends with an append and a prepend)
+        for i in range(nb):
+            out.append(Stream('branches-%02d' % i, bcases[i::nb], exhaustive=True,
+                              note='every owning state with capacity <= %d (size, head-room) and every attached state of length <= 4 '
+                                   '(front offset) x every operation with arguments on and one past each branch condition (part %d/%d)' % (mc, i + 1, nb)))
         out.append(Stream('scope2', small_scope_cases(2, True), exhaustive=True,
                           note='every history of 2 operations over a 36-operation alphabet (incl. removeFront/removeBack(2^64-1)) after a fixed prologue'))
         if th:
